@@ -25,7 +25,7 @@
  *   1 "siblings"  <N0 A0>T<N1 A1>T</N1>T<N2 A2>T</N2>T</N0>
  *   2 "nested"    <N0 A0>T<N1 A1>T<N2 A2>T</N2>T</N1>T</N0>
  *   3 "attrlimit" <N0>T<N1 k=fv ... (9, 10 or 11 attributes)>T</N1>T</N0>
- *   4 "preamble"  P P w <N0 A0>T</N0>      P = nothing | <?p?> | <?p> | <!p> (p: one byte, not '<' or '>'); w = nothing | one byte that is not '<'
+ *   4 "preamble"  v P v P w <N0 A0>T</N0>  (v = nothing | one text byte in front of each statement)     P = nothing | <?p?> | <?p> | <!p> (p: one byte, not '<' or '>'); w = nothing | one byte that is not '<'
  *   5 "attrs"     <N0 A A A>T</N0>         0..3 attributes, each quoted or not
  * Ni in {a, ab, b}; T = 0 or 1 text byte; A = nothing | " k=fv" | " k=\"f\"" (k, f symbolic bytes; an unquoted value ends
  * in the fixed letter v because the parser branches on the last byte of a start tag: '/' would make it self-closing).
@@ -525,10 +525,20 @@ void h_preamble(void) {
         for (int p2 = 0; p2 < 4; ++p2) {
             if (p1 == 0 && p2 != 0) continue; /* same documents as (p2, nothing) */
             for (int lead = 0; lead < 2; ++lead)
+#ifdef VERIF_XML_PRE /* unit sym_preamble_lead: one text byte in front of each preamble statement (e.g. white space before <?xml) */
+              for (int pre = 1; pre < 2; ++pre) {
+                if (!p1 || p1 == 2 || p2 == 1 || p2 == 2) continue;
+                for (int nm0 = 0; nm0 < 1; ++nm0)
+                    for (int act0 = ACT_DESCEND; act0 <= ACT_DESCEND; ++act0) {
+#else
+              for (int pre = 0; pre < 1; ++pre) {
                 for (int nm0 = 0; nm0 < 2; ++nm0)
                     for (int act0 = ACT_DESCEND; act0 <= ACT_SKIP; ++act0) {
+#endif
                         r_len = 0;
-                                            put_preamble_statement(p1);
+                        put_text(pre);
+                        put_preamble_statement(p1);
+                        if (p2) put_text(pre);
                         put_preamble_statement(p2);
                         put_text(lead);
                         put_open(0, nm0, 0, -1, act0, (p1 + nm0) & 1, kinds);
@@ -538,9 +548,14 @@ void h_preamble(void) {
                         int rc = run_parse(0);
                         __CPROVER_assert(rc == AWS_OP_SUCCESS, "document with preamble statements is accepted");
                         __CPROVER_assert(r_seen == 1, "the root element is reported exactly once");
+#ifdef VERIF_XML_PRE
+                        if (pre && !lead) CANARY("bytes in front of the preamble, root directly behind it");
+#else
                         if (p1 && p2) CANARY("two preamble statements skipped");
                         if (!p1 && !lead) CANARY("no preamble");
+#endif
                     }
+              }
         }
 }
 #endif
